@@ -134,6 +134,8 @@ pub const GENUSES: &[GenUse] = &[
     GenUse::Adapted(12),
     GenUse::Adapted(13),
     GenUse::Adapted(14),
+    GenUse::Adapted(15),
+    GenUse::Adapted(16),
 ];
 pub const GEN_ADAPTORS: &[&str] = &[
     "(1..=3).zip(sg())",
@@ -151,6 +153,9 @@ pub const GEN_ADAPTORS: &[&str] = &[
     "sg().cycle().take(3)",
     "sg().keep(|v| true)",
     "(1..=3).intersperse(|| sg().next())",
+    // the generator (directly / through an adaptor) unpacked into call arguments
+    "((|xs...| 0)(sg()...),)",
+    "((|xs...| 0)(sg().each(|v| v)...),)",
 ];
 
 #[derive(Clone, Copy, Debug, PartialEq, Eq, Hash)]
@@ -416,8 +421,19 @@ pub fn render(spec: &Spec) -> Scenario {
         }
         Placement::ScriptTest => {
             f1(&mut defs);
-            trailer.push("@test spin = ||".into());
-            trailer.push("  f1()".into());
+            if spec.limit_ns % 2 == 1 {
+                // the set-up function of the test runner never returns, the clean-up function
+                // would fail: the timeout must not be replaced by anything that runs afterwards
+                trailer.push("@pre_test = ||".into());
+                trailer.push("  f1()".into());
+                trailer.push("@post_test = ||".into());
+                trailer.push("  throw 'post'".into());
+                trailer.push("@test t = ||".into());
+                trailer.push("  1".into());
+            } else {
+                trailer.push("@test spin = ||".into());
+                trailer.push("  f1()".into());
+            }
             entry = vec!["w = 0".into()];
         }
         Placement::ScriptMain => {
